@@ -93,8 +93,10 @@ def check(chk, fx):
     eff_v1(chk, fx)
     # "empty exactly when not in the language / first offending term" rests on the table: its structural rules are
     # necessary conditions here too (not sufficient: see DESIGN.md)
-    from .. import lr
+    from .. import lr, lexrules
     lr.all_table_rules(chk, fx)
+    # the position reported for an offending byte / term rests on the lexeme extents: the matcher's snapshot rule
+    lexrules.match(chk, fx)
 
 
 def rep3(chk, fx, table, site):
